@@ -118,3 +118,850 @@ Proof.
       rewrite in_arg_raw; [now apply IH|assumption|now rewrite H2|reflexivity].
 Qed.
 
+Lemma raw_ok_u_facts c : raw_ok_u c = true ->
+  (c =? c_bs) = false /\ (c =? c_sp) = false /\ (c =? c_hash) = false.
+Proof.
+  unfold raw_ok_u. intros H. apply negb_true_iff in H.
+  apply orb_false_iff in H as [H H5]. apply orb_false_iff in H as [H H4].
+  apply orb_false_iff in H as [H H3]. apply orb_false_iff in H as [H1 H2]. auto.
+Qed.
+
+Lemma in_arg_u_raw c l acc : raw_ok_u c = true ->
+  in_arg fl_arg (c :: l) acc false false false = in_arg fl_arg l (c :: acc) false false false.
+Proof.
+  intros H. destruct (raw_ok_u_facts c H) as (H1 & H2 & H3).
+  apply in_arg_raw; [assumption|reflexivity|]. cbn [fl_arg stop_on_equals andb negb]. now rewrite H2, H3.
+Qed.
+
+Lemma in_arg_sep fl t tl acc : sep_start (t :: tl) = true ->
+  in_arg fl (t :: tl) acc false false false = POk (after (t :: tl), finish acc false).
+Proof.
+  cbn [sep_start after]. intros Ht. cbn [in_arg].
+  destruct (t =? c_bs) eqn:E1.
+  { apply N.eqb_eq in E1. subst. discriminate. }
+  cbn [andb negb].
+  replace ((t =? c_sp) || (t =? c_hash) || stop_on_equals fl && (t =? c_eq)) with true
+    by (symmetry; rewrite Ht; reflexivity).
+  reflexivity.
+Qed.
+
+Lemma in_arg_u s : forall es tl acc, valid_u s es = true -> sep_start tl = true ->
+  in_arg fl_arg (emit_str s es ++ tl) acc false false false
+  = POk (after tl, finish (rev s ++ acc) false).
+Proof.
+  induction s as [|c s IH]; intros es tl acc Hv Ht.
+  - cbn [emit_str app rev]. destruct tl as [|t tl]; [reflexivity|]. now apply in_arg_sep.
+  - cbn [valid_u] in Hv. apply andb_true_iff in Hv as [Hc Hs].
+    cbn [emit_str rev]. rewrite <- !app_assoc. cbn [app].
+    unfold emit1, escaped in *. destruct (hd false es).
+    + destruct (esc_of c) as [x|] eqn:Ee; cbn [app].
+      * rewrite (in_arg_esc c x) by assumption. now apply IH.
+      * cbn [andb orb] in Hc. rewrite in_arg_u_raw by assumption. now apply IH.
+    + cbn [andb orb] in Hc. cbn [app]. rewrite in_arg_u_raw by assumption. now apply IH.
+Qed.
+
+Lemma finish_nonempty acc uq : acc <> [] -> finish acc uq = Some (rev acc).
+Proof. destruct acc; [congruence|reflexivity]. Qed.
+
+Lemma finish_q a : finish (rev a ++ []) true = Some a.
+Proof.
+  rewrite app_nil_r. destruct a as [|c a]; [reflexivity|].
+  rewrite finish_nonempty; [now rewrite rev_involutive|].
+  cbn [rev]. intros H. apply app_eq_nil in H as [_ H]. discriminate.
+Qed.
+
+Lemma finish_u a uq : a <> [] -> finish (rev a ++ []) uq = Some a.
+Proof.
+  intros Ha. rewrite app_nil_r. rewrite finish_nonempty; [now rewrite rev_involutive|].
+  intros H. apply (f_equal (@rev _)) in H. rewrite rev_involutive in H. cbn in H. congruence.
+Qed.
+
+Lemma not_ws_not_sp c : is_ws c = false -> (c =? c_sp) = false.
+Proof.
+  intros H. destruct (c =? c_sp) eqn:E; [|reflexivity]. apply N.eqb_eq in E. subst. discriminate.
+Qed.
+
+(* ---- names (label, output variable, command): raw text --------------------------------------- *)
+Definition sep_start_fl (fl : flags) (tl : str) : bool :=
+  match tl with
+  | [] => true
+  | c :: _ => (c =? c_sp) || (c =? c_hash) || (stop_on_equals fl && (c =? c_eq))
+  end.
+
+Lemma sep_start_weaken fl tl : sep_start tl = true -> sep_start_fl fl tl = true.
+Proof. destruct tl as [|c tl]; [reflexivity|]. cbn. intros ->. reflexivity. Qed.
+
+Lemma in_arg_sep_fl fl t tl acc : sep_start_fl fl (t :: tl) = true ->
+  in_arg fl (t :: tl) acc false false false = POk (after (t :: tl), finish acc false).
+Proof.
+  cbn [sep_start_fl after]. intros Ht. cbn [in_arg].
+  destruct (t =? c_bs) eqn:E1.
+  { apply N.eqb_eq in E1. subst. cbn in Ht. rewrite andb_false_r in Ht. discriminate. }
+  cbn [andb negb]. rewrite Ht. reflexivity.
+Qed.
+
+Lemma name_char_facts c : name_char c = true ->
+  (c =? c_bs) = false /\ (c =? c_sp) = false /\ (c =? c_hash) = false /\ is_ws c = false.
+Proof.
+  unfold name_char. intros H. apply negb_true_iff in H.
+  apply orb_false_iff in H as [H H3]. apply orb_false_iff in H as [H1 H2].
+  repeat split; try assumption. now apply not_ws_not_sp.
+Qed.
+
+Lemma in_arg_name fl s : forall tl acc,
+  forallb name_char s = true -> (stop_on_equals fl = true -> no_eq s = true) ->
+  sep_start_fl fl tl = true ->
+  in_arg fl (s ++ tl) acc false false false = POk (after tl, finish (rev s ++ acc) false).
+Proof.
+  induction s as [|c s IH]; intros tl acc Hn He Ht.
+  - cbn [app rev]. destruct tl as [|t tl]; [reflexivity|]. now apply in_arg_sep_fl.
+  - cbn [forallb] in Hn. apply andb_true_iff in Hn as [Hc Hs].
+    destruct (name_char_facts c Hc) as (H1 & H2 & H3 & _).
+    cbn [app rev]. rewrite <- app_assoc. cbn [app].
+    rewrite in_arg_raw; [apply IH; try assumption| assumption | reflexivity |].
+    + intros Hso. specialize (He Hso). unfold no_eq in *. cbn [forallb] in He.
+      now apply andb_true_iff in He as [_ He].
+    + cbn [negb andb]. rewrite H2, H3. cbn [orb].
+      destruct (stop_on_equals fl) eqn:Hso; [|reflexivity].
+      specialize (He eq_refl). unfold no_eq in He. cbn [forallb] in He.
+      apply andb_true_iff in He as [He _]. apply negb_true_iff in He. now rewrite He.
+Qed.
+
+Lemma skip_name_first fl c l : name_char c = true -> (c =? c_quote) = false ->
+  skip fl (c :: l) = in_arg fl l [c] false false false.
+Proof.
+  intros Hc Hq. destruct (name_char_facts c Hc) as (H1 & H2 & H3 & _).
+  cbn [skip]. now rewrite H3, H2, Hq, H1.
+Qed.
+
+Lemma pnv_name fl n s tl :
+  name_ok s = true -> (stop_on_equals fl = true -> no_eq s = true) -> sep_start_fl fl tl = true ->
+  parse_next_value fl (spaces n ++ s ++ tl) = POk (after tl, Some s).
+Proof.
+  intros Hn He Ht. unfold parse_next_value. rewrite skip_spaces.
+  destruct s as [|c s]; [discriminate|]. cbn [name_ok] in Hn.
+  apply andb_true_iff in Hn as [Hq Hn]. apply negb_true_iff in Hq.
+  pose proof Hn as Hn'. cbn [forallb] in Hn. apply andb_true_iff in Hn as [Hc Hs].
+  cbn [app]. rewrite skip_name_first by assumption.
+  rewrite in_arg_name; try assumption.
+  - f_equal. f_equal. change (rev s ++ [c]) with (rev (c :: s)).
+    rewrite <- (app_nil_r (rev (c :: s))). apply finish_u. discriminate.
+  - intros Hso. specialize (He Hso). unfold no_eq in *. cbn [forallb] in He.
+    now apply andb_true_iff in He as [_ He].
+Qed.
+
+(* nothing but spaces and an optional comment: no value, and the scan is at the end of the line *)
+Definition is_tail (tl : str) : Prop := tl = [] \/ exists k x, tl = spaces k ++ c_hash :: x.
+
+Lemma pnv_tail fl tl : is_tail tl -> parse_next_value fl tl = POk ([], None).
+Proof.
+  intros [->|(k & x & ->)]; [reflexivity|]. unfold parse_next_value. rewrite skip_spaces. reflexivity.
+Qed.
+
+Lemma is_tail_sep tl : is_tail tl -> sep_start tl = true.
+Proof.
+  intros [->|(k & x & ->)]; [reflexivity|]. destruct k; cbn; reflexivity.
+Qed.
+
+(* ---- argument tokens ---------------------------------------------------------------------------- *)
+Lemma pnv_arg_q n a es rest : valid_q a es = true ->
+  parse_next_value fl_arg (spaces n ++ c_quote :: emit_str a es ++ c_quote :: rest) = POk (rest, Some a).
+Proof.
+  intros Hv. unfold parse_next_value. rewrite skip_spaces.
+  change (skip fl_arg (c_quote :: emit_str a es ++ c_quote :: rest))
+    with (in_arg fl_arg (emit_str a es ++ c_quote :: rest) [] true false false).
+  rewrite in_arg_q by assumption. now rewrite finish_q.
+Qed.
+
+Lemma skip_enter c l :
+  (c =? c_hash) = false -> (c =? c_sp) = false -> (c =? c_quote) = false ->
+  skip fl_arg (c :: l) = in_arg fl_arg (c :: l) [] false false false.
+Proof.
+  intros H1 H2 H3. cbn [skip in_arg]. rewrite H1, H2, H3.
+  destruct (c =? c_bs); reflexivity.
+Qed.
+
+Lemma emit_first_not_hash c s es c0 r :
+  valid_u (c :: s) es = true -> emit_str (c :: s) es = c0 :: r -> (c0 =? c_hash) = false.
+Proof.
+  cbn [valid_u emit_str]. intros Hv. apply andb_true_iff in Hv as [Hc _].
+  unfold emit1, escaped in *. destruct (hd false es).
+  - destruct (esc_of c); cbn [app]; intros H; inversion H; subst; [reflexivity|].
+    cbn [andb orb] in Hc. now destruct (raw_ok_u_facts _ Hc) as (_ & _ & ?).
+  - cbn [andb orb app] in *. intros H; inversion H; subst.
+    now destruct (raw_ok_u_facts _ Hc) as (_ & _ & ?).
+Qed.
+
+Lemma emit_nonempty c s es : emit_str (c :: s) es <> [].
+Proof.
+  cbn [emit_str]. unfold emit1. destruct (hd false es); [destruct (esc_of c)|]; discriminate.
+Qed.
+
+Lemma pnv_arg_u n b a ch tl :
+  a_quoted ch = false -> valid_arg b a ch = true -> sep_start tl = true ->
+  parse_next_value fl_arg (spaces n ++ render_arg a ch ++ tl) = POk (after tl, Some a).
+Proof.
+  unfold valid_arg, render_arg. intros -> Hv Ht.
+  apply andb_true_iff in Hv as [Hv Hend]. apply andb_true_iff in Hv as [Hv Hfirst].
+  unfold parse_next_value. rewrite skip_spaces.
+  destruct a as [|c a]; [discriminate|].
+  destruct (emit_str (c :: a) (a_esc ch)) as [|c0 r] eqn:E; [discriminate|].
+  pose proof (emit_first_not_hash _ _ _ _ _ Hv E) as Hh.
+  apply andb_true_iff in Hfirst as [Hf _]. apply andb_true_iff in Hf as [Hq Hw].
+  apply negb_true_iff in Hq, Hw.
+  cbn [app]. rewrite skip_enter; [|assumption|now apply not_ws_not_sp|assumption].
+  change (c0 :: r ++ tl) with ((c0 :: r) ++ tl). rewrite <- E.
+  rewrite in_arg_u by assumption. f_equal. f_equal. apply finish_u. discriminate.
+Qed.
+
+(* ---- argument lists ------------------------------------------------------------------------------ *)
+Lemma args_after f tl : sep_start tl = true ->
+  parse_args_fuel f fl_arg (after tl) = parse_args_fuel f fl_arg tl.
+Proof.
+  intros _. destruct tl as [|c tl]; [reflexivity|]. cbn [after].
+  destruct (c =? c_hash) eqn:E; [|reflexivity].
+  destruct f; [reflexivity|]. cbn [parse_args_fuel]. unfold parse_next_value. cbn [skip]. now rewrite E.
+Qed.
+
+Lemma render_args_sep args chs X : sep_start X = true -> sep_start (render_args args chs ++ X) = true.
+Proof. destruct args, chs; cbn [render_args app]; try (intros; assumption). reflexivity. Qed.
+
+Lemma args_cont : forall args chs b f X, valid_args b args chs = true -> sep_start X = true ->
+  parse_args_fuel (length args + f) fl_arg (render_args args chs ++ X) =
+  match parse_args_fuel f fl_arg X with POk r => POk (args ++ r) | PErr e => PErr e end.
+Proof.
+  induction args as [|a args IH]; intros chs b f X Hv HX; destruct chs as [|ch chs]; try discriminate.
+  - cbn [render_args app length plus]. destruct (parse_args_fuel f fl_arg X); reflexivity.
+  - cbn [valid_args] in Hv. apply andb_true_iff in Hv as [Ha Hv].
+    cbn [length plus parse_args_fuel render_args]. rewrite <- !app_assoc.
+    pose proof (render_args_sep args chs X HX) as HY.
+    specialize (IH chs false f X Hv HX).
+    destruct (a_quoted ch) eqn:Eq.
+    + unfold render_arg. rewrite Eq. cbn [app]. rewrite <- app_assoc. cbn [app].
+      unfold valid_arg in Ha. rewrite Eq in Ha.
+      rewrite pnv_arg_q by assumption. rewrite IH.
+      destruct (parse_args_fuel f fl_arg X); reflexivity.
+    + rewrite (pnv_arg_u _ b) by assumption. rewrite args_after by assumption. rewrite IH.
+      destruct (parse_args_fuel f fl_arg X); reflexivity.
+Qed.
+
+Lemma parse_arguments_render args chs b X : valid_args b args chs = true -> sep_start X = true ->
+  parse_arguments (render_args args chs ++ X) =
+  match parse_args_fuel (S (length X)) fl_arg X with
+  | POk r => POk (opt_list (args ++ r))
+  | PErr e => PErr e
+  end.
+Proof.
+  intros Hv HX. unfold parse_arguments, parse_arguments_with.
+  pose proof (args_cont args chs b (S (length X)) X Hv HX) as H.
+  pose proof (args_fuel_enough fl_arg (S (length X)) X ltac:(lia)) as Hn.
+  apply args_any_fuel in H.
+  - rewrite H. destruct (parse_args_fuel (S (length X)) fl_arg X); reflexivity.
+  - destruct (parse_args_fuel (S (length X)) fl_arg X); congruence.
+Qed.
+
+Lemma args_tail f tl : is_tail tl -> parse_args_fuel (S f) fl_arg tl = POk [].
+Proof. intros H. cbn [parse_args_fuel]. now rewrite pnv_tail. Qed.
+
+Lemma parse_arguments_tail tl : is_tail tl -> parse_arguments tl = POk None.
+Proof. intros H. unfold parse_arguments, parse_arguments_with. now rewrite args_tail. Qed.
+
+Lemma parse_arguments_after X : sep_start X = true -> parse_arguments (after X) = parse_arguments X.
+Proof.
+  intros _. destruct X as [|c X]; [reflexivity|]. cbn [after].
+  destruct (c =? c_hash) eqn:E; [|reflexivity].
+  unfold parse_arguments, parse_arguments_with. cbn [length parse_args_fuel].
+  unfold parse_next_value. cbn [skip]. now rewrite E.
+Qed.
+
+(* ---- label, output variable, command ---------------------------------------------------------- *)
+Lemma find_label_some n Z : name_ok n = true -> sep_start Z = true ->
+  find_label (c_colon :: n ++ Z) = POk (after Z, Some (c_colon :: n)).
+Proof.
+  intros Hn HZ. cbn [find_label]. change (c_colon =? c_colon) with true. cbv iota.
+  assert (H : parse_next_value fl_name (n ++ Z) = POk (after Z, Some n)).
+  { apply (pnv_name fl_name 0 n Z Hn); [discriminate|now apply sep_start_weaken]. }
+  rewrite H. destruct n; [discriminate|reflexivity].
+Qed.
+
+Lemma find_label_none c l : (c =? c_colon) = false -> (c =? c_sp) = false ->
+  find_label (c :: l) = POk (c :: l, None).
+Proof. intros H1 H2. cbn [find_label]. now rewrite H1, H2. Qed.
+
+Lemma after_equals_spaces a r : after_equals (spaces a ++ c_eq :: r) = Some r.
+Proof. induction a; cbn [spaces repeat app after_equals]; [reflexivity|]. exact IHa. Qed.
+
+Lemma after_equals_skip a r : after_equals (spaces a ++ r) = after_equals r.
+Proof. induction a; cbn [spaces repeat app after_equals]; [reflexivity|]. exact IHa. Qed.
+
+Lemma sep_eq_left fl a r : stop_on_equals fl = true -> sep_start_fl fl (spaces a ++ c_eq :: r) = true.
+Proof. intros H. destruct a; cbn; [now rewrite H|reflexivity]. Qed.
+
+Lemma after_eq_left a r : after (spaces a ++ c_eq :: r) = spaces a ++ c_eq :: r.
+Proof. destruct a; reflexivity. Qed.
+
+Lemma find_oc_both g o a b c X :
+  name_ok o = true -> no_eq o = true -> name_ok c = true -> sep_start X = true ->
+  find_output_and_command (spaces g ++ o ++ spaces a ++ c_eq :: spaces b ++ c ++ X)
+  = POk (after X, Some o, Some c).
+Proof.
+  intros Ho Heq Hc HX. unfold find_output_and_command.
+  rewrite (pnv_name fl_out g o _ Ho); [|intros _; assumption|now apply sep_eq_left].
+  rewrite after_eq_left, after_equals_spaces.
+  rewrite (pnv_name fl_name b c X Hc); [reflexivity|discriminate|now apply sep_start_weaken].
+Qed.
+
+Lemma find_oc_cmd g c X :
+  name_ok c = true -> no_eq c = true -> sep_start X = true -> after_equals (after X) = None ->
+  find_output_and_command (spaces g ++ c ++ X) = POk (after X, None, Some c).
+Proof.
+  intros Hc Heq HX Hae. unfold find_output_and_command.
+  rewrite (pnv_name fl_out g c X Hc); [|intros _; assumption|now apply sep_start_weaken].
+  now rewrite Hae.
+Qed.
+
+Lemma find_oc_out g o a tl :
+  name_ok o = true -> no_eq o = true -> is_tail tl ->
+  find_output_and_command (spaces g ++ o ++ spaces a ++ c_eq :: tl) = POk (tl, Some o, None).
+Proof.
+  intros Ho Heq Ht. unfold find_output_and_command.
+  rewrite (pnv_name fl_out g o _ Ho); [|intros _; assumption|now apply sep_eq_left].
+  rewrite after_eq_left, after_equals_spaces. now rewrite pnv_tail.
+Qed.
+
+Lemma is_tail_after tl : is_tail tl -> is_tail (after tl).
+Proof.
+  intros [->|(k & x & ->)]; [left; reflexivity|].
+  destruct k; cbn; [left; reflexivity|right; exists (S k), x; reflexivity].
+Qed.
+
+Lemma find_oc_none tl : is_tail tl -> find_output_and_command tl = POk ([], None, None).
+Proof. intros Ht. unfold find_output_and_command. now rewrite pnv_tail. Qed.
+
+Lemma name_first c s : name_ok (c :: s) = true -> is_ws c = false /\ (c =? c_hash) = false /\ (c =? c_sp) = false.
+Proof.
+  cbn [name_ok forallb]. intros H. apply andb_true_iff in H as [_ H]. apply andb_true_iff in H as [H _].
+  destruct (name_char_facts c H) as (_ & ? & ? & ?). auto.
+Qed.
+
+Definition lab_of (i : sinstr) : option str := option_map (cons c_colon) (s_label i).
+
+Lemma after_spaces g r : after (spaces (S g) ++ r) = spaces (S g) ++ r.
+Proof. reflexivity. Qed.
+Lemma sep_spaces g r : sep_start (spaces (S g) ++ r) = true.
+Proof. reflexivity. Qed.
+
+Lemma find_oc_both0 o a b c X :
+  name_ok o = true -> no_eq o = true -> name_ok c = true -> sep_start X = true ->
+  find_output_and_command (o ++ spaces a ++ c_eq :: spaces b ++ c ++ X) = POk (after X, Some o, Some c).
+Proof. exact (find_oc_both 0 o a b c X). Qed.
+Lemma find_oc_cmd0 c X :
+  name_ok c = true -> no_eq c = true -> sep_start X = true -> after_equals (after X) = None ->
+  find_output_and_command (c ++ X) = POk (after X, None, Some c).
+Proof. exact (find_oc_cmd 0 c X). Qed.
+Lemma find_oc_out0 o a tl :
+  name_ok o = true -> no_eq o = true -> is_tail tl ->
+  find_output_and_command (o ++ spaces a ++ c_eq :: tl) = POk (tl, Some o, None).
+Proof. exact (find_oc_out 0 o a tl). Qed.
+
+Ltac norm_app := repeat first [rewrite <- app_assoc | progress cbn [app]].
+
+Ltac split_wf H :=
+  unfold wf in H; cbn [s_label s_output s_command s_args] in H;
+  repeat match type of H with
+         | (_ && _) = true => let H' := fresh "W" in apply andb_true_iff in H as [H H']
+         end.
+
+Lemma first_ok_colon c s : first_ok (c :: s) = true -> (c =? c_colon) = false.
+Proof. cbn. intros H. apply negb_true_iff in H. now apply orb_false_iff in H as [? _]. Qed.
+Lemma first_ok_bang c s : first_ok (c :: s) = true -> (c =? c_bang) = false.
+Proof. cbn. intros H. apply negb_true_iff in H. now apply orb_false_iff in H as [_ ?]. Qed.
+
+(* a head that has a command, followed by anything that may follow an unquoted token *)
+Lemma head_cmd i ch c X :
+  wf i = true -> s_command i = Some c -> sep_start X = true ->
+  (s_output i = None -> after_equals (after X) = None) ->
+  parse_command_line (render_head i ch ++ X) =
+  match parse_arguments X with
+  | PErr e => PErr e
+  | POk a => POk (IScript (lab_of i) (s_output i) (Some c) a)
+  end.
+Proof.
+  destruct i as [lab out cmd args]. cbn [s_label s_output s_command s_args]. intros Hwf -> HX Hae.
+  unfold render_head, render_label, render_oc, lab_of. cbn [s_label s_output s_command s_args option_map].
+  split_wf Hwf.
+  destruct lab as [n|], out as [o|].
+  - (* label, output, command *)
+    apply andb_true_iff in W2 as [Ho Hoe]. apply andb_true_iff in W1 as [Hc _].
+    norm_app. unfold parse_command_line.
+    rewrite find_label_some; [|assumption|apply sep_spaces]. rewrite after_spaces.
+    rewrite find_oc_both by assumption. rewrite parse_arguments_after by assumption.
+    destruct (parse_arguments X); reflexivity.
+  - (* label, command *)
+    apply andb_true_iff in W1 as [Hc Hce].
+    norm_app. unfold parse_command_line.
+    rewrite find_label_some; [|assumption|apply sep_spaces]. rewrite after_spaces.
+    rewrite find_oc_cmd; [|assumption|assumption|assumption|now apply Hae].
+    rewrite parse_arguments_after by assumption.
+    destruct (parse_arguments X); reflexivity.
+  - (* output, command *)
+    apply andb_true_iff in W2 as [Ho Hoe]. apply andb_true_iff in W1 as [Hc _].
+    destruct o as [|c0 o]; [discriminate|].
+    destruct (name_first _ _ Ho) as (_ & _ & Hsp). pose proof (first_ok_colon _ _ W0) as Hcol.
+    norm_app. unfold parse_command_line.
+    rewrite find_label_none by assumption.
+    change (c0 :: o ++ spaces (ch_eq_left ch) ++ c_eq :: spaces (ch_eq_right ch) ++ c ++ X)
+      with ((c0 :: o) ++ spaces (ch_eq_left ch) ++ c_eq :: spaces (ch_eq_right ch) ++ c ++ X).
+    rewrite find_oc_both0 by assumption. rewrite parse_arguments_after by assumption.
+    destruct (parse_arguments X); reflexivity.
+  - (* command *)
+    apply andb_true_iff in W1 as [Hc Hce].
+    destruct c as [|c0 c]; [discriminate|].
+    destruct (name_first _ _ Hc) as (_ & _ & Hsp). pose proof (first_ok_colon _ _ W0) as Hcol.
+    norm_app. unfold parse_command_line.
+    rewrite find_label_none by assumption.
+    change (c0 :: c ++ X) with ((c0 :: c) ++ X).
+    rewrite find_oc_cmd0; [|assumption|assumption|assumption|now apply Hae].
+    rewrite parse_arguments_after by assumption.
+    destruct (parse_arguments X); reflexivity.
+Qed.
+
+(* a head without command (label and/or output variable), followed by the end of the line *)
+Lemma head_nocmd i ch tl :
+  wf i = true -> s_command i = None -> (s_label i <> None \/ s_output i <> None) -> is_tail tl ->
+  parse_command_line (render_head i ch ++ tl) = POk (IScript (lab_of i) (s_output i) None None).
+Proof.
+  destruct i as [lab out cmd args]. cbn [s_label s_output s_command s_args]. intros Hwf -> Hne Ht.
+  unfold render_head, render_label, render_oc, lab_of. cbn [s_label s_output s_command s_args option_map].
+  split_wf Hwf.
+  destruct lab as [n|], out as [o|].
+  - apply andb_true_iff in W2 as [Ho Hoe].
+    norm_app. unfold parse_command_line.
+    rewrite find_label_some; [|assumption|apply sep_spaces]. rewrite after_spaces.
+    rewrite find_oc_out by assumption. now rewrite parse_arguments_tail.
+  - norm_app. rewrite ?app_nil_r. unfold parse_command_line.
+    rewrite find_label_some; [|assumption|now apply is_tail_sep].
+    rewrite find_oc_none by now apply is_tail_after. reflexivity.
+  - apply andb_true_iff in W2 as [Ho Hoe].
+    destruct o as [|c0 o]; [discriminate|].
+    destruct (name_first _ _ Ho) as (_ & _ & Hsp). pose proof (first_ok_colon _ _ W0) as Hcol.
+    norm_app. unfold parse_command_line.
+    rewrite find_label_none by assumption.
+    change (c0 :: o ++ spaces (ch_eq_left ch) ++ c_eq :: tl)
+      with ((c0 :: o) ++ spaces (ch_eq_left ch) ++ c_eq :: tl).
+    rewrite find_oc_out0 by assumption. now rewrite parse_arguments_tail.
+  - destruct Hne; congruence.
+Qed.
+
+Definition noout (i : sinstr) : bool := match s_output i with None => true | Some _ => false end.
+
+Lemma after_equals_tail tl : is_tail tl -> after_equals (after tl) = None.
+Proof.
+  intros Ht. apply is_tail_after in Ht. destruct Ht as [->|(k & x & ->)]; [reflexivity|].
+  now rewrite after_equals_skip.
+Qed.
+
+Lemma after_equals_args args chs tl :
+  valid_args true args chs = true -> is_tail tl ->
+  after_equals (after (render_args args chs ++ tl)) = None.
+Proof.
+  destruct args as [|a args], chs as [|ch chs]; try discriminate; intros Hv Ht.
+  - now apply after_equals_tail.
+  - cbn [render_args]. rewrite <- !app_assoc. rewrite after_spaces, after_equals_skip.
+    cbn [valid_args] in Hv. apply andb_true_iff in Hv as [Ha _].
+    unfold valid_arg, render_arg in *. destruct (a_quoted ch); [reflexivity|].
+    apply andb_true_iff in Ha as [Ha _]. apply andb_true_iff in Ha as [_ Ha].
+    destruct (emit_str a (a_esc ch)) as [|c0 r]; [discriminate|].
+    apply andb_true_iff in Ha as [Ha He]. apply andb_true_iff in Ha as [_ Hw].
+    apply negb_true_iff in Hw, He. cbn [andb] in He. apply not_ws_not_sp in Hw.
+    cbn [app after_equals]. now rewrite Hw, He.
+Qed.
+
+Lemma body_parse i ch tl :
+  wf i = true -> valid_args (noout i) (s_args i) (ch_args ch) = true ->
+  (s_label i <> None \/ s_output i <> None \/ s_command i <> None) -> is_tail tl ->
+  parse_command_line (render_head i ch ++ render_args (s_args i) (ch_args ch) ++ tl) = POk (norm i).
+Proof.
+  intros Hwf Hv Hne Ht.
+  destruct (s_command i) as [c|] eqn:Ec.
+  - rewrite (head_cmd i ch c); try assumption.
+    + erewrite parse_arguments_render; [|eassumption|now apply is_tail_sep].
+      rewrite args_tail by assumption. rewrite app_nil_r.
+      unfold norm, lab_of. rewrite Ec. destruct (s_label i), (s_output i); reflexivity.
+    + apply render_args_sep. now apply is_tail_sep.
+    + intros Ho. unfold noout in Hv. rewrite Ho in Hv. now apply after_equals_args.
+  - assert (Ha : s_args i = []).
+    { pose proof Hwf as H. unfold wf in H. rewrite Ec in H. apply andb_true_iff in H as [_ H].
+      destruct (s_args i); [reflexivity|discriminate]. }
+    rewrite Ha in *. destruct (ch_args ch); [|discriminate]. cbn [render_args app].
+    rewrite head_nocmd; try assumption.
+    + unfold norm, lab_of. rewrite Ec, Ha. destruct (s_label i), (s_output i); try reflexivity.
+      destruct Hne as [?|[?|?]]; congruence.
+    + destruct Hne as [?|[?|?]]; auto; congruence.
+Qed.
+
+(* ---- the first and the last character of a rendered line body ------------------------------- *)
+Lemma name_ends s : name_ok s = true -> ends_ws s = false.
+Proof.
+  intros H. unfold ends_ws. destruct (rev s) as [|c r] eqn:E; [reflexivity|].
+  assert (Hin : In c s) by (apply in_rev; rewrite E; now left).
+  destruct s as [|c0 s]; [discriminate|]. cbn [name_ok] in H. apply andb_true_iff in H as [_ H].
+  rewrite forallb_forall in H. specialize (H c Hin). now destruct (name_char_facts c H) as (_ & _ & _ & ?).
+Qed.
+
+Lemma render_args_nonempty a args ch chs : render_args (a :: args) (ch :: chs) <> [].
+Proof. cbn [render_args spaces repeat app]. discriminate. Qed.
+
+Lemma render_arg_ends b a ch : valid_arg b a ch = true ->
+  render_arg a ch <> [] /\ ends_ws (render_arg a ch) = false.
+Proof.
+  unfold valid_arg, render_arg. destruct (a_quoted ch).
+  - intros _. split; [discriminate|].
+    change (c_quote :: emit_str a (a_esc ch) ++ [c_quote]) with ((c_quote :: emit_str a (a_esc ch)) ++ [c_quote]).
+    rewrite ends_ws_app by discriminate. reflexivity.
+  - intros H. apply andb_true_iff in H as [H He]. apply andb_true_iff in H as [_ H].
+    apply negb_true_iff in He. split; [|assumption].
+    destruct (emit_str a (a_esc ch)); [discriminate|discriminate].
+Qed.
+
+Lemma render_args_ends : forall args chs b, valid_args b args chs = true -> args <> [] ->
+  ends_ws (render_args args chs) = false.
+Proof.
+  induction args as [|a args IH]; intros chs b Hv Hne; [congruence|].
+  destruct chs as [|ch chs]; [discriminate|]. cbn [valid_args] in Hv. apply andb_true_iff in Hv as [Ha Hv].
+  cbn [render_args]. destruct args as [|a' args].
+  - destruct chs; [|discriminate]. cbn [render_args]. rewrite app_nil_r.
+    destruct (render_arg_ends _ _ _ Ha) as [Hn He]. now rewrite ends_ws_app.
+  - destruct chs as [|ch' chs]; [discriminate|].
+    rewrite app_assoc. rewrite ends_ws_app by apply render_args_nonempty.
+    apply (IH _ false); [assumption|discriminate].
+Qed.
+
+Lemma head_first i ch :
+  wf i = true -> (s_label i <> None \/ s_output i <> None \/ s_command i <> None) ->
+  exists c0 r, render_head i ch = c0 :: r /\ is_ws c0 = false /\ (c0 =? c_hash) = false /\ (c0 =? c_bang) = false.
+Proof.
+  destruct i as [lab out cmd args]. cbn [s_label s_output s_command]. intros Hwf Hne.
+  unfold render_head, render_label, render_oc. cbn [s_label s_output s_command].
+  split_wf Hwf.
+  destruct lab as [n|].
+  - eexists _, _. split; [cbn [app]; reflexivity|]. repeat split; reflexivity.
+  - destruct out as [o|].
+    + apply andb_true_iff in W2 as [Ho _]. destruct o as [|c0 o]; [discriminate|].
+      destruct (name_first _ _ Ho) as (Hw & Hh & _). pose proof (first_ok_bang _ _ W0).
+      destruct cmd; eexists _, _; (split; [cbn [app]; reflexivity|auto]).
+    + destruct cmd as [c|]; [|destruct Hne as [?|[?|?]]; congruence].
+      apply andb_true_iff in W1 as [Hc _]. destruct c as [|c0 c]; [discriminate|].
+      destruct (name_first _ _ Hc) as (Hw & Hh & _). pose proof (first_ok_bang _ _ W0).
+      eexists _, _; (split; [cbn [app]; reflexivity|auto]).
+Qed.
+
+Lemma head_ends i ch :
+  wf i = true -> (s_label i <> None \/ s_output i <> None \/ s_command i <> None) ->
+  ends_ws (render_head i ch) = false.
+Proof.
+  destruct i as [lab out cmd args]. cbn [s_label s_output s_command]. intros Hwf Hne.
+  unfold render_head, render_label, render_oc. cbn [s_label s_output s_command].
+  split_wf Hwf.
+  destruct cmd as [c|].
+  - apply andb_true_iff in W1 as [Hc _]. pose proof (name_ends c Hc) as He.
+    assert (Hcn : c <> []) by (destruct c; [discriminate|discriminate]).
+    destruct out as [o|].
+    + rewrite !app_assoc. rewrite <- app_assoc.
+      change (c_eq :: spaces (ch_eq_right ch) ++ c) with ((c_eq :: spaces (ch_eq_right ch)) ++ c).
+      rewrite !app_assoc. now rewrite ends_ws_app.
+    + now rewrite ends_ws_app.
+  - destruct out as [o|].
+    + rewrite !app_assoc. now rewrite ends_ws_app by discriminate.
+    + destruct lab as [n|]; [|destruct Hne as [?|[?|?]]; congruence].
+      rewrite !app_nil_r. pose proof (name_ends n Hwf).
+      change (c_colon :: n) with ([c_colon] ++ n). rewrite ends_ws_app; [assumption|].
+      destruct n; discriminate.
+Qed.
+
+Lemma trim_start_lead lead c x : forallb is_ws lead = true -> is_ws c = false ->
+  trim_start (lead ++ c :: x) = c :: x.
+Proof. intros Hl Hc. unfold trim_start. rewrite drop_ws_all by assumption. now apply drop_ws_nonws. Qed.
+
+(* trimming a line whose body begins and ends with a non-white character, optionally followed by
+   a comment: what is left is the body and a tail that the token scanner ignores *)
+Lemma trim_line lead trail c0 r (cm : option (nat * str)) tl0 :
+  forallb is_ws lead = true -> forallb is_ws trail = true ->
+  is_ws c0 = false -> ends_ws (c0 :: r) = false ->
+  tl0 = match cm with Some (k, txt) => spaces k ++ c_hash :: txt | None => [] end ->
+  exists tl, is_tail tl /\ trim (lead ++ ((c0 :: r) ++ tl0) ++ trail) = (c0 :: r) ++ tl.
+Proof.
+  intros Hl Ht Hc He ->. unfold trim.
+  destruct cm as [[k txt]|].
+  - exists (spaces k ++ c_hash :: trim_end (txt ++ trail)). split; [right; eauto|].
+    cbn [app]. rewrite trim_start_lead by assumption.
+    rewrite <- !app_assoc. cbn [app].
+    rewrite (app_assoc r).
+    change (c0 :: (r ++ spaces k) ++ c_hash :: txt ++ trail) with ((c0 :: r ++ spaces k) ++ c_hash :: txt ++ trail).
+    rewrite trim_end_mid by reflexivity. cbn [app]. now rewrite <- app_assoc.
+  - exists []. split; [left; reflexivity|]. rewrite !app_nil_r.
+    cbn [app]. rewrite trim_start_lead by assumption.
+    change (c0 :: r ++ trail) with ((c0 :: r) ++ trail).
+    now apply trim_end_keep.
+Qed.
+
+Lemma parse_line_of_trim s c t :
+  trim s = c :: t -> (c =? c_hash) = false -> (c =? c_bang) = false ->
+  parse_line s = parse_command_line (c :: t).
+Proof. intros H H1 H2. unfold parse_line. now rewrite H, H1, H2. Qed.
+
+Lemma valid_args_nil b chs : valid_args b [] chs = true -> chs = [].
+Proof. destruct chs; [reflexivity|discriminate]. Qed.
+
+Theorem render_line_parses i ch :
+  wf i = true -> valid i ch = true -> parse_line (render_line i ch) = POk (norm i).
+Proof.
+  intros Hwf Hv. unfold valid in Hv.
+  apply andb_true_iff in Hv as [Hv Hcm]. apply andb_true_iff in Hv as [Hv Hargs].
+  apply andb_true_iff in Hv as [Hlead Htrail].
+  apply ws_line_ws in Hlead, Htrail.
+  assert (Hemp : (s_label i = None /\ s_output i = None /\ s_command i = None) \/
+                 (s_label i <> None \/ s_output i <> None \/ s_command i <> None)).
+  { destruct (s_label i), (s_output i), (s_command i); auto; right; try (left; discriminate);
+      try (right; left; discriminate); right; right; discriminate. }
+  destruct Hemp as [(El & Eo & Ec)|Hne].
+  - (* nothing but white space and an optional comment *)
+    assert (Ha : s_args i = []).
+    { pose proof Hwf as H. unfold wf in H. rewrite Ec in H. apply andb_true_iff in H as [_ H].
+      destruct (s_args i); [reflexivity|discriminate]. }
+    rewrite Ha in Hargs. apply valid_args_nil in Hargs.
+    unfold render_line, render_body, render_head, render_label, render_oc, render_comment, norm.
+    rewrite El, Eo, Ec, Ha, Hargs. cbn [render_args app]. unfold parse_line, trim.
+    destruct (ch_comment ch) as [[k txt]|].
+    + unfold trim_start. rewrite drop_ws_all by assumption. rewrite <- app_assoc.
+      rewrite drop_ws_all by apply spaces_ws. cbn [app]. rewrite drop_ws_nonws by reflexivity.
+      pose proof (trim_end_mid [] c_hash (txt ++ ch_trail ch) eq_refl) as Hm. cbn [app] in Hm.
+      rewrite Hm. reflexivity.
+    + cbn [app]. unfold trim_start. rewrite drop_ws_only; [reflexivity|].
+      rewrite forallb_app. now rewrite Hlead, Htrail.
+  - destruct (head_first i ch Hwf Hne) as (c0 & r & Eh & Hw & Hh & Hb).
+    assert (Hpre : exists r', render_head i ch ++ render_args (s_args i) (ch_args ch) = c0 :: r' /\
+                              ends_ws (c0 :: r') = false).
+    { rewrite Eh. cbn [app]. eexists. split; [reflexivity|].
+      change (c0 :: r ++ render_args (s_args i) (ch_args ch)) with ((c0 :: r) ++ render_args (s_args i) (ch_args ch)).
+      rewrite <- Eh. destruct (s_args i) as [|a args] eqn:Ea.
+      - apply valid_args_nil in Hargs. rewrite Hargs. cbn [render_args]. rewrite app_nil_r.
+        now apply head_ends.
+      - destruct (ch_args ch) as [|ch0 chs] eqn:Ech; [discriminate|].
+        rewrite ends_ws_app by apply render_args_nonempty.
+        eapply render_args_ends; [eassumption|discriminate]. }
+    destruct Hpre as (r' & Epre & Hends).
+    destruct (trim_line (ch_lead ch) (ch_trail ch) c0 r' (ch_comment ch) (render_comment ch) Hlead Htrail Hw Hends eq_refl) as (tl & Htl & Etrim).
+    unfold render_line, render_body.
+    rewrite (app_assoc (render_head i ch)). rewrite Epre.
+    rewrite (parse_line_of_trim _ c0 (r' ++ tl) Etrim Hh Hb).
+    change (c0 :: r' ++ tl) with ((c0 :: r') ++ tl). rewrite <- Epre. rewrite <- app_assoc.
+    apply body_parse; assumption.
+Qed.
+
+(* ---- lines ---------------------------------------------------------------------------------------- *)
+Lemma drop_ws_app x w :
+  drop_ws (x ++ w) = match drop_ws x with [] => drop_ws w | d => d ++ w end.
+Proof.
+  induction x as [|c x IH]; cbn [app drop_ws]; [destruct (drop_ws w); reflexivity|].
+  destruct (is_ws c); [exact IH|reflexivity].
+Qed.
+
+Lemma trim_end_app_ws z w : forallb is_ws w = true -> trim_end (z ++ w) = trim_end z.
+Proof.
+  intros H. unfold trim_end. rewrite rev_app_distr. rewrite drop_ws_all; [reflexivity|now rewrite forallb_rev].
+Qed.
+
+Lemma trim_app_ws x w : forallb is_ws w = true -> trim (x ++ w) = trim x.
+Proof.
+  intros H. unfold trim, trim_start. rewrite drop_ws_app.
+  destruct (drop_ws x) as [|d r] eqn:E.
+  - now rewrite drop_ws_only.
+  - now apply trim_end_app_ws.
+Qed.
+
+Lemma parse_line_trim_eq a b : trim a = trim b -> parse_line a = parse_line b.
+Proof. intros H. unfold parse_line. now rewrite H. Qed.
+
+Lemma parse_line_strip l : parse_line (strip_cr (rev l)) = parse_line l.
+Proof.
+  apply parse_line_trim_eq. unfold strip_cr. destruct (rev l) as [|c r] eqn:E.
+  - apply (f_equal (@rev _)) in E. rewrite rev_involutive in E. now subst.
+  - destruct (c =? c_cr) eqn:Ec.
+    + apply N.eqb_eq in Ec. subst c. apply (f_equal (@rev _)) in E. rewrite rev_involutive in E.
+      cbn [rev] in E. subst l. symmetry. now apply trim_app_ws.
+    + rewrite <- E. now rewrite rev_involutive.
+Qed.
+
+Lemma lines_aux_lf l : forall rest cur, no_lf l = true ->
+  lines_aux (l ++ c_lf :: rest) cur = strip_cr (rev l ++ cur) :: lines_aux rest [].
+Proof.
+  induction l as [|c l IH]; intros rest cur H.
+  - reflexivity.
+  - unfold no_lf in *. cbn [forallb] in H. apply andb_true_iff in H as [Hc Hl]. apply negb_true_iff in Hc.
+    cbn [app lines_aux]. rewrite Hc. rewrite IH by assumption. cbn [rev]. now rewrite <- app_assoc.
+Qed.
+
+Lemma lines_aux_last l : no_lf l = true -> l <> [] -> lines_aux l [] = [l].
+Proof.
+  intros H Hne.
+  assert (G : forall l cur, no_lf l = true -> lines_aux l cur =
+                match rev l ++ cur with [] => [] | x => [rev x] end).
+  { clear. induction l as [|c l IH]; intros cur H.
+    - cbn. destruct cur; reflexivity.
+    - unfold no_lf in *. cbn [forallb] in H. apply andb_true_iff in H as [Hc Hl]. apply negb_true_iff in Hc.
+      cbn [lines_aux]. rewrite Hc. rewrite IH by assumption. cbn [rev]. now rewrite <- app_assoc. }
+  rewrite G by assumption. rewrite app_nil_r.
+  destruct (rev l) eqn:E.
+  - apply (f_equal (@rev _)) in E. rewrite rev_involutive in E. cbn in E. congruence.
+  - rewrite <- E. now rewrite rev_involutive.
+Qed.
+
+Lemma no_lf_app a b : no_lf (a ++ b) = no_lf a && no_lf b.
+Proof. apply forallb_app. Qed.
+
+(* the line that [lines] cuts off a rendered line with its terminator parses like the line *)
+Lemma lines_item l e rest : no_lf l = true ->
+  exists l', lines_aux ((l ++ eol_str e) ++ rest) [] = l' :: lines_aux rest [] /\ parse_line l' = parse_line l.
+Proof.
+  intros H. destruct e; cbn [eol_str].
+  - rewrite <- app_assoc. cbn [app]. rewrite lines_aux_lf by assumption. eexists. split; [reflexivity|].
+    rewrite app_nil_r. apply parse_line_strip.
+  - replace ((l ++ [c_cr; c_lf]) ++ rest) with ((l ++ [c_cr]) ++ c_lf :: rest)
+      by (rewrite <- !app_assoc; reflexivity).
+    rewrite lines_aux_lf.
+    + eexists. split; [reflexivity|]. rewrite app_nil_r, rev_app_distr. cbn [rev app strip_cr].
+      change (c_cr =? c_cr) with true. cbv iota. now rewrite rev_involutive.
+    + rewrite no_lf_app, H. reflexivity.
+Qed.
+
+(* ---- a rendered line contains no line feed ------------------------------------------------------- *)
+Lemma no_lf_spaces n : no_lf (spaces n) = true.
+Proof. induction n; cbn; auto. Qed.
+
+Lemma name_no_lf s : name_ok s = true -> no_lf s = true.
+Proof.
+  destruct s as [|c0 s]; [discriminate|]. cbn [name_ok]. intros H. apply andb_true_iff in H as [_ H].
+  unfold no_lf. rewrite forallb_forall in *. intros c Hc. specialize (H c Hc).
+  destruct (name_char_facts c H) as (_ & _ & _ & Hw).
+  destruct (c =? c_lf) eqn:E; [|reflexivity]. apply N.eqb_eq in E. subst. discriminate.
+Qed.
+
+Lemma ws_line_no_lf w : ws_line w = true -> no_lf w = true.
+Proof.
+  unfold ws_line, no_lf. rewrite !forallb_forall. intros H c Hc. specialize (H c Hc).
+  now apply andb_true_iff in H as [_ H].
+Qed.
+
+Lemma esc_of_lf c x : esc_of c = Some x -> (x =? c_lf) = false.
+Proof.
+  unfold esc_of. repeat match goal with |- context [if ?b then _ else _] => destruct b end;
+    intros H; inversion H; reflexivity.
+Qed.
+
+Lemma emit_no_lf s : forall es, (valid_q s es = true \/ valid_u s es = true) -> no_lf (emit_str s es) = true.
+Proof.
+  induction s as [|c s IH]; intros es H; [reflexivity|].
+  cbn [emit_str]. rewrite no_lf_app. rewrite IH.
+  2:{ destruct H as [H|H]; [left|right]; cbn in H; now apply andb_true_iff in H as [_ H]. }
+  rewrite andb_true_r.
+  assert (Hc : escaped c (hd false es) = true \/ (c =? c_lf) = false).
+  { destruct H as [H|H]; cbn in H; apply andb_true_iff in H as [H _]; apply orb_true_iff in H as [H|H]; auto; right.
+    - apply negb_true_iff in H. unfold special in H. apply orb_false_iff in H as [H _].
+      now apply orb_false_iff in H as [_ H].
+    - unfold raw_ok_u in H. apply negb_true_iff in H. do 3 (apply orb_false_iff in H as [H _]).
+      now apply orb_false_iff in H as [_ H]. }
+  unfold emit1, escaped in *. destruct (hd false es).
+  - destruct (esc_of c) as [x|] eqn:E.
+    + cbn. rewrite (esc_of_lf _ _ E). reflexivity.
+    + destruct Hc as [Hc|Hc]; [discriminate|]. cbn. now rewrite Hc.
+  - destruct Hc as [Hc|Hc]; [discriminate|]. cbn. now rewrite Hc.
+Qed.
+
+Lemma render_args_no_lf : forall args chs b, valid_args b args chs = true -> no_lf (render_args args chs) = true.
+Proof.
+  induction args as [|a args IH]; intros chs b H; destruct chs as [|ch chs]; try reflexivity.
+  cbn [valid_args] in H. apply andb_true_iff in H as [Ha H].
+  cbn [render_args]. rewrite !no_lf_app, no_lf_spaces, (IH _ _ H), andb_true_r. cbn [andb].
+  unfold valid_arg, render_arg in *. destruct (a_quoted ch).
+  - change (c_quote :: emit_str a (a_esc ch) ++ [c_quote]) with ([c_quote] ++ emit_str a (a_esc ch) ++ [c_quote]).
+    rewrite !no_lf_app. rewrite emit_no_lf by auto. reflexivity.
+  - apply andb_true_iff in Ha as [Ha _]. apply andb_true_iff in Ha as [Ha _]. apply emit_no_lf. auto.
+Qed.
+
+Lemma render_line_no_lf i ch : wf i = true -> valid i ch = true -> no_lf (render_line i ch) = true.
+Proof.
+  intros Hwf Hv. unfold valid in Hv.
+  apply andb_true_iff in Hv as [Hv Hcm]. apply andb_true_iff in Hv as [Hv Hargs].
+  apply andb_true_iff in Hv as [Hlead Htrail].
+  unfold render_line, render_body, render_head. rewrite !no_lf_app.
+  rewrite (ws_line_no_lf _ Hlead), (ws_line_no_lf _ Htrail), (render_args_no_lf _ _ _ Hargs).
+  assert (H1 : no_lf (render_label i ch) = true).
+  { unfold render_label. destruct (s_label i) as [n|] eqn:E; [|reflexivity].
+    unfold wf in Hwf. rewrite E in Hwf. repeat (apply andb_true_iff in Hwf as [Hwf _]).
+    change (c_colon :: n ++ match s_output i, s_command i with None, None => [] | _, _ => spaces (S (ch_label_gap ch)) end)
+      with ([c_colon] ++ n ++ match s_output i, s_command i with None, None => [] | _, _ => spaces (S (ch_label_gap ch)) end).
+    rewrite !no_lf_app, (name_no_lf _ Hwf). destruct (s_output i), (s_command i); rewrite ?no_lf_spaces; reflexivity. }
+  assert (H2 : no_lf (render_oc i ch) = true).
+  { unfold render_oc. unfold wf in Hwf. apply andb_true_iff in Hwf as [Hwf _]. apply andb_true_iff in Hwf as [Hwf _].
+    apply andb_true_iff in Hwf as [Hwf Wc]. apply andb_true_iff in Hwf as [_ Wo].
+    destruct (s_output i) as [o|], (s_command i) as [c|]; try reflexivity.
+    - apply andb_true_iff in Wo as [Wo _]. apply andb_true_iff in Wc as [Wc _].
+      change (c_eq :: spaces (ch_eq_right ch) ++ c) with ([c_eq] ++ spaces (ch_eq_right ch) ++ c).
+      now rewrite !no_lf_app, !no_lf_spaces, (name_no_lf _ Wo), (name_no_lf _ Wc).
+    - apply andb_true_iff in Wo as [Wo _].
+      now rewrite !no_lf_app, !no_lf_spaces, (name_no_lf _ Wo).
+    - apply andb_true_iff in Wc as [Wc _]. now apply name_no_lf. }
+  rewrite H1, H2. cbn [andb].
+  unfold render_comment. destruct (ch_comment ch) as [[k txt]|]; [|reflexivity].
+  change (c_hash :: txt) with ([c_hash] ++ txt). now rewrite !no_lf_app, no_lf_spaces, Hcm.
+Qed.
+
+(* ---- scripts -------------------------------------------------------------------------------------- *)
+Lemma preprocess_norm src ln i : preprocess no_include src ln (norm i) = TOk [].
+Proof. unfold norm. destruct (s_label i), (s_output i), (s_command i); reflexivity. Qed.
+
+Lemma parse_lines_items : forall items ln rest_text, forallb item_ok items = true ->
+  parse_lines_from no_include None ln (lines_aux (concat (map render_item items) ++ rest_text) []) =
+  match parse_lines_from no_include None (ln + N.of_nat (length items)) (lines_aux rest_text []) with
+  | TOk rest => TOk (expect_from ln (map (fun x : item => fst (fst x)) items) ++ rest)
+  | TErr e l s => TErr e l s
+  end.
+Proof.
+  induction items as [|[[i ch] e] items IH]; intros ln rest_text H.
+  - cbn [map concat app length expect_from]. replace (ln + N.of_nat 0) with ln by lia.
+    destruct (parse_lines_from no_include None ln (lines_aux rest_text [])); reflexivity.
+  - cbn [forallb item_ok] in H. apply andb_true_iff in H as [Hi H]. apply andb_true_iff in Hi as [Hwf Hv].
+    cbn [map concat render_item]. rewrite <- app_assoc.
+    destruct (lines_item (render_line i ch) e (concat (map render_item items) ++ rest_text)
+                (render_line_no_lf i ch Hwf Hv)) as (l' & El & Ep).
+    rewrite El. cbn [parse_lines_from]. rewrite Ep, (render_line_parses i ch Hwf Hv), preprocess_norm.
+    rewrite IH by assumption. cbn [length].
+    assert (EN : ln + 1 + N.of_nat (length items) = ln + N.of_nat (S (length items))) by (rewrite Nat2N.inj_succ; lia).
+    rewrite EN.
+    destruct (parse_lines_from no_include None (ln + N.of_nat (S (length items))) (lines_aux rest_text []));
+      reflexivity.
+Qed.
+
+Lemma expect_from_app a b ln :
+  expect_from ln (a ++ b) = expect_from ln a ++ expect_from (ln + N.of_nat (length a)) b.
+Proof.
+  revert ln. induction a as [|x a IH]; intros ln; cbn [app expect_from length].
+  - now replace (ln + N.of_nat 0) with ln by lia.
+  - rewrite IH. assert (EN : ln + 1 + N.of_nat (length a) = ln + N.of_nat (S (length a))) by (rewrite Nat2N.inj_succ; lia).
+    now rewrite EN.
+Qed.
+
+Theorem render_script_parses items last :
+  forallb item_ok items = true -> last_ok last = true ->
+  parse_text (render_script items last) = TOk (expect_from 1 (script_instrs items last)).
+Proof.
+  intros Hi Hl. unfold parse_text, parse_text_src, lines, render_script, script_instrs.
+  rewrite parse_lines_items by assumption. rewrite expect_from_app, map_length.
+  destruct last as [[i ch]|].
+  - cbn [last_ok] in Hl. apply andb_true_iff in Hl as [Hl Hne]. apply andb_true_iff in Hl as [Hwf Hv].
+    rewrite lines_aux_last; [|now apply render_line_no_lf|destruct (render_line i ch); [discriminate|discriminate]].
+    cbn [parse_lines_from]. rewrite (render_line_parses i ch Hwf Hv), preprocess_norm. reflexivity.
+  - reflexivity.
+Qed.
+
